@@ -3,7 +3,7 @@
 use std::borrow::Cow;
 use std::io::{self, Write};
 
-use crate::errors::Result;
+use crate::errors::{Error, Result};
 use crate::histogram::BUCKET_LABEL;
 use crate::proto::{self, MetricFamily, MetricType};
 #[cfg(feature = "protobuf")]
@@ -55,6 +55,12 @@ impl TextEncoder {
         for mf in metric_families {
             // Fail-fast checks.
             check_metric_family(mf)?;
+            if mf.get_field_type() == MetricType::UNTYPED {
+                return Err(Error::Msg(format!(
+                    "MetricFamily {} is untyped, which the text encoder does not support",
+                    mf.name()
+                )));
+            }
 
             // Write `# HELP` header.
             let name = mf.name();
@@ -150,7 +156,7 @@ impl TextEncoder {
                         )?;
                     }
                     MetricType::UNTYPED => {
-                        unimplemented!();
+                        unreachable!("untyped families are refused above");
                     }
                 }
             }
